@@ -687,8 +687,8 @@ func (n *Node) Path() string {
 	if n.parent == nil {
 		return "$"
 	}
-	if n.key != nil {
-		return n.parent.Path() + "['" + n.Key() + "']"
+	if n.parent.IsObject() {
+		return n.parent.Path() + "['" + escapePathKey(n.Key()) + "']"
 	}
 	return n.parent.Path() + "[" + strconv.Itoa(n.Index()) + "]"
 }
@@ -947,4 +947,21 @@ func (n *Node) root() (node *Node) {
 		node = node.parent
 	}
 	return node
+}
+
+// escapePathKey escapes a key so that it can be read back from a single-quoted JSONPath name.
+func escapePathKey(key string) string {
+	result := make([]byte, 0, len(key))
+	for i := 0; i < len(key); i++ {
+		c := key[i]
+		switch {
+		case c == '\\' || c == '\'':
+			result = append(result, '\\', c)
+		case c < ' ':
+			result = append(result, '\\', 'u', '0', '0', hex[c>>4], hex[c&0xF])
+		default:
+			result = append(result, c)
+		}
+	}
+	return string(result)
 }
